@@ -58,7 +58,10 @@ CHECKS = {
     ref="§3 C19"),
  "C17": dict(
     text="Lean 4 theorems (any field, any matrix sizes): one swap of the maxvol loop preserves C·A[idx] = A whenever the pivot is non-zero, "
-         "and the whole fuel-bounded loop does (the guard tol<|C[i,j]| with tol≥0 gives the non-zero pivot). The model's swap loop "
+         "keeps C[idx] = I (swap_identity) and keeps the chosen rows distinct (swap_distinct: the entering row has a non-zero coefficient where "
+         "every other chosen row has 0); all three invariants hold along the whole fuel-bounded loop (loop_invariants; the guard "
+         "tol<|C[i,j]| with tol≥0 gives the non-zero pivot), and when the loop stops before its cap the entry the arg-max returned is ≤ tol "
+         "(loop_stops_below_tol). The model's swap loop "
          "(exact rationals) is run from the LAPACK start recorded from the implementation and must end on the same rows (near-ties of "
          "the arg-max / tolerance are detected and discarded). All postconditions of both routines (distinct rows, non-singular "
          "submatrix, C[idx]=I, |C|≤tol unless capped, rectangular bounds r≤K≤maxK, row norms ≤ tol) by a NumPy oracle over Gaussian, "
@@ -72,16 +75,18 @@ CHECKS = {
     text="Lean 4 theorems (ordered field): (1) the full error bound of round_tt's truncation sweep for TT cores and algorithm='svd': "
          "the squared Frobenius error equals the sum of the discarded tails of all steps (successive truncation errors are orthogonal: "
          "roundTT_error_eq, by induction over the sweep with a per-step Pythagoras lemma) and is ≤ eps²·‖T‖² when rmax does not bind "
-         "(roundTT_within_eps), with ‖T‖ = ‖last core‖ (norm_on_last_core), given the SVD kernel's contract for every answer; "
+         "(roundTT_within_eps), with ‖T‖ = ‖last core‖ (norm_on_last_core), given the SVD kernel's contract for every answer; end to end "
+         "(roundTT_end_to_end): the left-orthonormal state the sweep starts from is DERIVED from the QR contracts of the orthogonalisation "
+         "sweep (Lemmas/OrthSweep: tensor unchanged, every core but the last left-orthonormal); with column-orthonormal Tucker factors the "
+         "bound holds for the full tensor (roundTT_with_factors, via the Tucker-operator isometry wprod_gram); "
          "(2) the rank chosen by truncated_svd is the least rank whose discarded tail is within δ², ≥ 1, ≤ rmax, ≤ number of singular "
-         "values; the budget split of round() composes to eps; thresholds re-extracted from the source. Tie: the executable sweep "
-         "(Model/RoundTT.sweepRev) is run in the driver on the state entering the real sweep with the SVD answers recorded from "
-         "torch.linalg.svd in-process and compared core-for-core with Tensor.round_tt; the theorem's hypotheses (left-orthonormal "
+         "values; the budget split of round() composes to eps; thresholds re-extracted from the source. Tie: the executable model (Model/OrthSweep.leftSweep then Model/RoundTT.sweepRev) is run in the driver on the ORIGINAL cores with "
+         "the QR and SVD answers recorded from torch.linalg.qr/svd in-process and compared core-for-core with Tensor.round_tt; the theorem's hypotheses (left-orthonormal "
          "state, kernel contract) and its conclusion (error² = Σ tails) are validated on every such run; every rank chosen inside "
          "round_tt/round_tucker/round is compared with rankSelect. The bound for the other formats, round_tucker, round, "
          "algorithm='eig' and conditioning up to 1e6 is decided by a dense oracle search.",
-    note="PARTIAL: the error theorem covers TT cores without Tucker factors, algorithm='svd', no absolute-zero special case; with "
-         "factors / eig / round_tucker it is an open statement in Props/C04.lean. Trusted: Lean kernel + standard axioms; SVD/eigh "
+    note="PARTIAL: the error theorems cover round_tt with algorithm='svd' and no absolute-zero special case (TT cores replayed end to "
+         "end; TT-Tucker through the isometry theorem, not replayed); eig and round_tucker are open statements in Props/C04.lean. Trusted: Lean kernel + standard axioms; SVD/eigh "
          "kernels (answers recorded; contract validated numerically per call, not verified); harness glue; sampling; float near-ties "
          "between cumsum and δ² are discarded and counted. Known findings: tensors of norm < 1e-12 are treated as zero (absolute "
          "threshold 1e-13).",
@@ -107,13 +112,15 @@ CHECKS = {
     text="Lean 4 theorems (any ring, any ranks/sizes): L4 bond change — a matrix on a bond may be multiplied into either neighbour — "
          "so with the kernel contract Q·R = A the factor step, left_orthogonalize and right_orthogonalize leave every tail of the chain, "
          "hence the tensor, unchanged; the new core's unfolding IS the kernel's Q (orthonormal by the contract QᵀQ = I); lifting to any "
-         "position mu. The model is fed with the QR answers recorded in-process from torch.linalg.qr and reproduces the implementation's "
+         "position mu; at sweep level (any number of modes): orthogonalize(N-1) leaves the dense array unchanged (orthogonalize_dense), "
+         "leaves every core but the last left-orthonormal with chained ranks (orthogonalize_gauge), keeps shape and boundary ranks, and "
+         "the norm is then carried by the last core (norm_carried_by_last). The model is fed with the QR answers recorded in-process from torch.linalg.qr and reproduces the implementation's "
          "cores; the contracts are validated numerically on every recorded call; gauge, invariance, norm identity and histories of "
          "orthogonalisations are checked by Gram-matrix / dense oracles.",
     note="Trusted: Lean kernel + standard axioms; torch.linalg.qr (contract Q·R=A, QᵀQ=I assumed, validated per run); harness glue; "
-         "sampling. The norm identity ‖T‖ = ‖core_mu ×₂ U_mu‖ (isometry lemma iface_ortho is proved in Lemmas/Chain for the right-"
-         "orthonormal side) is checked numerically, not assembled into a C13 theorem; orthogonalize(mu) as a whole is the composition "
-         "of the proved steps (composition checked by the oracle over histories).",
+         "sampling. The sweep-level theorems are for mu = N-1 on TT cores (the left sweep); the right sweep (mu < N-1), factor "
+         "steps inside the sweep and histories of orthogonalisations about different cores are compositions of the proved steps checked "
+         "by the oracle.",
     tech="Lean 4 proof modulo the QR kernel contract (L4) + kernel-recording correspondence + Gram/dense oracles",
     ref="§3 C13"),
  "C07": dict(
